@@ -264,6 +264,12 @@ func c19Faithful(c *core.Ctx) {
 			for _, v1 := range vals {
 				argOpts = append(argOpts, c19Arg{Name: n, Vals: []string{v1}})
 			}
+			if n == "required" || n == "Required" {
+				// only the literal false makes a point optional: boolean look-alikes do not
+				for _, v1 := range []string{"0", "f", "F", "FALSE", "False", "true", "no"} {
+					argOpts = append(argOpts, c19Arg{Name: n, Vals: []string{v1}})
+				}
+			}
 			for _, vs := range [][]string{{"v", "false"}, {"[a b]", "v"}, {"{a,b}", "(a=b c)", "false"}, {"false", "[a b]"}} {
 				argOpts = append(argOpts, c19Arg{Name: n, Vals: vs})
 			}
